@@ -5,6 +5,7 @@ truncated quotient estimate. These are statements about numbers (`Fin w`-indexed
 identification of the words read by `Ymq.Crt.qEstimate` with the quantities below is tied to the
 code by the K/O streams (`mzp_crt`, `mzp_redc`), not proved.
 -/
+import Ymq.Gen.Params
 import Mathlib.Data.Nat.ChineseRemainder
 import Mathlib.Algebra.BigOperators.Fin
 import Mathlib.Algebra.Order.BigOperators.Group.Finset
@@ -156,5 +157,33 @@ theorem q_estimate' {w : Nat} (P q V M hi Wd : Nat) (xs c : Fin w → Nat)
       nlinarith
     have h2 : top * M < (q + 1) * (Wd * hi) * M := by omega
     exact Nat.lt_of_mul_lt_mul_right h2
+
+/-! ### the prime table -/
+
+open Ymq.Gen.Params
+
+/-- `t` modular squarings -/
+def sqIter (p : Nat) : Nat → Nat → Nat
+  | 0, x => x % p
+  | t + 1, x => sqIter p t (x * x % p)
+
+theorem sqIter_eq (p t x : Nat) : sqIter p t x = x ^ 2 ^ t % p := by
+  induction t generalizing x with
+  | zero => simp [sqIter]
+  | succ t ih =>
+    rw [sqIter, ih, pow_succ, Nat.mul_comm (2 ^ t) 2, pow_mul, pow_two, ← Nat.pow_mod]
+
+/-- facts about one row `(p, g)` of `NTT_PRIMES`: `p ≡ 1 (mod 2^49)`, `2^58 < p < 2^59`,
+`p·(p-2) ≡ -1 (mod 2^64)` (the Montgomery constant used by `mg_mul64`), and `g^(2^31) ≡ -1 (mod p)`
+(so `g` has order exactly `2^32` and every `g^(2^(32-k))` is a principal `2^k`-th root of unity) -/
+def RowOk (r : Nat × Nat) : Prop :=
+  r.1 % 2 ^ 49 = 1 ∧ 2 ^ 58 < r.1 ∧ r.1 < 2 ^ 59 ∧ (r.1 * (r.1 - 2) + 1) % 2 ^ 64 = 0 ∧
+  sqIter r.1 31 r.2 = r.1 - 1
+
+instance (r : Nat × Nat) : Decidable (RowOk r) := by unfold RowOk; infer_instance
+
+theorem rows_ok : ∀ r ∈ NTT_PRIMES, RowOk r := by decide +kernel
+
+theorem primes_coprime : NTT_PRIME_VALUES.Pairwise Nat.Coprime := by decide +kernel
 
 end Ymq.Crt
